@@ -193,6 +193,15 @@ def rule_sites(c, prog, full=True):
             c.ok(R, inst)
         else:
             c.violation(R, f"{label}|explicit-not-stored", f"{core.short(f.path)}: a property that does not migrate must be stored on every path and without looking at what is already stored under its name (paths: {r['paths']}, storing: {r['stores']}, deciding on presence: {r['guarded'][:2]}): the migrated legacy value is filed under the same name when it comes first, and an explicit value that is then skipped loses to it", f.sp, instance=inst)
+    for label in ("binary-reader", "xml-reader", "xml-writer"):
+        if label not in results:
+            continue
+        f, r = results[label]
+        inst = f"{label}:always-migrated-when-absent"
+        if r.get("dropped_unmigrated"):
+            c.violation(R, f"{label}|dropped-unmigrated", f"{core.short(f.path)}: {len(r['dropped_unmigrated'])} path(s) let a legacy value go without calling PropertyMigration::perform although the new property is not known to be present (path conditions: {r['dropped_unmigrated'][0]}): for those values this site yields no new property at all while the other three sites yield the migrated one", f.sp, instance=inst)
+        else:
+            c.ok(R, inst)
     for label in ("binary-reader", "xml-reader"):
         if label not in results or "err_paths" not in results[label][1]:
             continue
